@@ -658,6 +658,10 @@ func checkAspectResult(a *ctAsp, gasUsed, output, errText interface{}, hasResult
 		bad = append(bad, fmt.Sprintf("C19: Aspect execution %d ended with error %q but is reported with %q", a.id, want, es))
 	}
 	if !hasResult {
+		// the flat format drops the result of a failed frame, but a reverted one keeps it (the output is the revert data)
+		if want == "" || want == "execution reverted" {
+			bad = append(bad, fmt.Sprintf("C19: Aspect execution %d (error %q) is reported without its result (gas used, output)", a.id, want))
+		}
 		return bad
 	}
 	gs, _ := gasUsed.(string)
